@@ -606,6 +606,18 @@ func runC12(res *lp.Result) {
 		default:
 			r.rep.violation("encoded bytes differ from the specification's format: "+shortType(vc.dt), id, hexOrMark(enc)+" instead of "+hexOrMark(sb))
 		}
+		// a scalar in every OTHER Go type it is accepted in (a time of day as a time.Time in some zone, an integer in another width,
+		// a number as a string …): whatever the representation, the bytes are the specification's bytes for the value
+		if isScalar(vc.dt) {
+			for ai, alt := range scalarAlts(vc.dt) {
+				if alt == pt || (ai+len(id))%2 == 0 {
+					continue
+				}
+				if enc2, ok2 := r.roundTrip(vc, rep{alt.String(), alt}, false); ok2 && hexOrMark(enc2) != hexOrMark(sb) && !hasEmptyComposite(vc.dt) {
+					r.rep.violation("encoded bytes differ from the specification's format: "+shortType(vc.dt)+" via "+alt.String(), vc.id("C12", alt.String()), hexOrMark(enc2)+" instead of "+hexOrMark(sb))
+				}
+			}
+		}
 		// the specification's bytes must decode to the value, too
 		codec := r.codec(vc.dt, id)
 		o, p2 := decodeInto(codec, vc.dt, vc.version, sb, tIface)
